@@ -320,6 +320,35 @@ func runC10(w *World, r *Report) {
 
 	// ---- handler isolation
 	// ---- InitCallbacks starts a unit of its own: it never lets the enclosing unit's manager shine through
+	r.Rule("C10.deferred-hook-sees-result", "a deferred closure that reads or sets an error variable of its function (the chat template's own OnError, runner.run's graph end/error, the builders' sticky-error hooks) captures the function's RESULT: every return reads its error from that cell, so what the hook sees is what the caller gets", 3)
+	{
+		n := 0
+		for _, fn := range w.RepoFuncs("schema", "internal", "flow", "callbacks", "components", "utils", "compose") {
+			for _, d := range deferredErrorCells(fn) {
+				n++
+				det := ""
+				if d.bad != nil {
+					det = w.pos(d.bad.Pos())
+				}
+				r.Check(d.okAll, "C10.deferred-hook-sees-result", fmt.Sprintf("%s: deferred closure captures error cell %q", w.fname(fn), d.cell.Comment), d.def.Pos(), "every return of the function loads its error from the captured cell (a named result)",
+					"the return at "+det+" does not go through the captured variable (a shadowing `x, err := …; return nil, err`, or a local that replaced the named result): the deferred hook tests a variable that stays nil — a component that fires its own callbacks delivers OnStart and then neither OnEnd nor OnError when it fails, a builder's error does not stick")
+			}
+		}
+		_ = n
+	}
+
+	r.Rule("C10.build-snapshots", "HandlerBuilder.Build hands out a copy of the registered functions: the builder pointer is only read through, never stored in / wrapped by / returned as the handler — registering on the builder after Build (a builder reused for the next node's handler) must not change a handler already attached", 1)
+	{
+		build := w.Fn("callbacks", "HandlerBuilder.Build")
+		esc := builderPointerKept(build.Params[0])
+		for i, e := range esc {
+			r.Fail("C10.build-snapshots", fmt.Sprintf("HandlerBuilder.Build keeps the builder pointer #%d", i+1), e.Pos(), "the built handler aliases the builder ("+e.String()+"): functions registered afterwards are invoked by — and change the Needed() answer of — a handler that was already designated to another node")
+		}
+		if len(esc) == 0 {
+			r.OK("C10.build-snapshots", "HandlerBuilder.Build reads through its receiver only", build.Pos(), "the result holds a copy of *hb")
+		}
+	}
+
 	r.Rule("C10.init-detaches", "InitCallbacks installs a manager (or nil) into the context on every path: it never returns the incoming context unchanged", 1)
 	{
 		ic := w.Fn("internal/callbacks", "InitCallbacks")
